@@ -259,6 +259,7 @@ func runCondStream(r *Run) {
 	u := condUniverse()
 	if r.Shard == 0 {
 		condDefinedTypesFamily(r)
+		condExtraFamily(r)
 	}
 	r.Stats.Notes["universe"] = fmt.Sprint(len(u))
 	do := func(spec string) {
